@@ -47,7 +47,8 @@ SPEC = {
         "scoped_declarations_unobserved", "no_other_nondeterminism",
         # worked example of a commutative fold: Context::end_enum transcribed (Model/EnumRange.lean)
         "end_enum_shape_as_modelled", "end_enum_type_or_error_order_independent", "end_enum_panics_order_independent",
-        "gather_panic_message_order_dependent", "end_enum_order_independent", "blame_first_order_dependent",
+        "gather_panic_message_order_dependent", "end_enum_order_independent", "end_enum_promotion_total",
+        "blame_first_order_dependent",
         # history independence: no process-wide state (tie: Gen.GlobalState), and what that buys (Model/History.lean)
         "history_independent_of_stateless", "runSeq_eq_map_fresh", "history_independent_of_no_state",
         "real_reserved_set_history_independent", "once_lock_history_dependent",
